@@ -42,7 +42,10 @@ def schemas_for(ctx):
 
 def wrap(schema, ops, obs=True, raw="v2.raw", storage="mem"):
     """Full script: mode line, library creation, and after every op the observation + raw dump."""
-    lines = [MODE, "v2.create %s %s" % (schema, storage)]
+    # `+alias` (harness only, decided by the script's own content): two handle objects per crate / track variable
+    import zlib
+    alias = " +alias" if zlib.crc32("\n".join(ops).encode()) & 1 else ""
+    lines = [MODE, "v2.create %s %s%s" % (schema, storage, alias)]
     for op in ops:
         lines.append(op)
         if op.startswith(("crate.q", "db.q", "pe.list", "pl.list")):
